@@ -34,7 +34,7 @@ def run(tier, seed):
                       'call sequences (4-6 variables, 12-20 relations, assume / pop / next / check histories) are executed by the '
                       'sequential build and replayed call by call on the PARALLELIZE build under several pool sizes; ParTrace requires '
                       'identical results, truth values, decisions, bounds, values and learnt clauses for every call; (3) the same '
-                      'sequences under ThreadSanitizer. distinct_nontrivial = call sequences compared in which the tableau was pivoted')
+                      'sequences under ThreadSanitizer; (4) the thread pool driven directly (harness/pool_driver): rounds of "enqueue 1-8 trivial tasks, then join" on pools of 1, 2, 4 and 8 workers; the first 40 rounds of each of the 16 configurations are recorded event by event and validated by PoolTrace (every task started and ended exactly once, join() returned only after all of them had ended), the other rounds are checked in place, a join() that does not return within 60 s (twice) is a hang. distinct_nontrivial = call sequences compared in which the tableau was pivoted')
     ev.assumptions = ['a call sequence on which two runs of the sequential build differ (hash-order effects) is dropped and counted',
                       'data races in the C++ memory model are observed through ThreadSanitizer, not decided by TLC',
                       'thread schedules of the real runs are those the OS produces under the chosen pool sizes']
@@ -92,6 +92,30 @@ def run(tier, seed):
             ev.sample({'pool': cpus or 'all cpus', 'first_pair': lines[1][:300] if len(lines) > 1 else ''})
             if vlib.validate_batch(ev, PROP, 'ParTrace', lines, signature, 'par-' + (cpus or 'all'), timeout=2500):
                 return 1
+        # the thread pool itself, used as a pivot uses it: rounds of enqueue + join on pools of 1-8 workers; the first rounds
+        # event by event, the rest checked in place; a join() that does not return is a "hang" event (PoolTrace)
+        pool = vlib.build_driver('pool_driver', 'dbg_par', libs=('concurrent',))
+        rounds = 20000 if q else 250000
+        for attempt in (1, 2):
+            pout = os.path.join(rd, 'pool_%d.ndjson' % attempt)
+            rc, o = vlib.run([pool, pout, str(rounds), '40', '60'], timeout=3000, check=False)
+            plines = vlib.read_lines(pout)
+            if any('"e":"hang"' in x for x in plines) and attempt == 1:
+                vlib.log('[pool] a join() did not return within 60 s: running the rounds again')
+                continue      # reported only if it repeats (a starved machine is not a lost wake-up)
+            if rc not in (0, 3):
+                plines.append(json.dumps({'e': 'abort', 'what': 'pool_driver ended with rc=%d' % rc}))
+            break
+        # the events of an execution in the order of their sequence numbers
+        ordered = []
+        for e in vlib.split_executions(plines):
+            head = [x for x in e if '"seq"' not in x]
+            body = sorted((x for x in e if '"seq"' in x), key=lambda x: json.loads(x)['seq'])
+            ordered += head[:1] + body + head[1:]
+        ev.cov['pool_rounds'] = sum(json.loads(x).get('rounds', 0) for x in plines if '"e":"bulk"' in x) + 40 * 16
+        if vlib.validate_batch(ev, PROP, 'PoolTrace', ordered, lambda e_, ex, i, r=None: 'pool:%s:%s' % (e_.get('e'), r['contracts'][-1][0] if r and r.get('contracts') else 'Structure'),
+                               'pool', timeout=1200, chunk_lines=100000):
+            return 1
         # ThreadSanitizer (observation)
         vlib.build_repo('tsan_par', targets=['smt'])
         tsan = vlib.build_driver('net_driver', 'tsan_par', libs=('smt', 'json', 'concurrent'))
